@@ -827,6 +827,8 @@ class Rewriter:
         b = self.sub('R22:slice-cloned-iter', r'\bself\.iter\(\)\.cloned\(\)', 'slice_cloned_iter(hs, self.as_slice())', b)
         b = self.sub('R22:full-range-index', r'(?m)^(\s*)&(?:mut )?self\[\.\.\]\s*$', r'\1slice_index_full(hs, self.deref(hs))', b)
         b = self.sub('R22:model-type', r'(?<![\w:])Vec::new_in\(', 'VecM::new_in(hs, ', b)
+        b = self.sub('R22:use-stmt', r'(?m)^\s*use crate::boxed::Box;\s*$', '', b)
+        b = self.sub('R22:box-from-raw', r"let (\w+): Box<'bump, \[T\]> = Box::from_raw\((\w+)\);", r'let \1: BoxSliceM = box_slice_from_raw(hs, \2);', b)
         b = self.sub('R22:model-type', r'(?<![\w:])Vec::from_iter_in\(', 'VecM::from_iter_in(hs, ', b)
         b = self.sub('R22:model-type', r'(?<![\w:])RawVec::new_in\(', 'RawVecM::new_in(hs, ', b)
         b = self.sub('R22:model-type', r'(?<![\w:])RawVec::from_raw_parts_in\(', 'RawVecM::from_raw_parts_in(hs, ', b)
@@ -1112,6 +1114,7 @@ class Rewriter:
         # `res?` converts crate::AllocErr through `impl From<AllocErr> for CollectionAllocErr` (a constant function)
         # constructors / shrink_to_fit
         b = self.sub('R20:dangling', r'\bNonNull::<T>::dangling\(\)|\bNonNull::dangling\(\)', 'dangling_T()', b)
+        b = self.sub('R20:nonnull-new-unchecked', r'\bNonNull::new_unchecked\(', 'nonnull_new_unchecked(', b)
         b = self.map_calls(b, r'\ba\.alloc_zeroed', lambda m_, a: 'arena_alloc_zeroed(ar, %s)' % ', '.join(a), 'R20:arena-alloc-zeroed')
         b = self.sub('R20:result-unwrap', r'(Layout::from_size_align\([^;]*?\))\.unwrap\(\)', r'res_unwrap(\1)', b)
         b = self.sub('R20:model-type', r'(?<![\w:])RawVec \{', 'RawVecG {', b)
